@@ -34,6 +34,54 @@ CONFIGS_THOROUGH = ['sse2', 'sse2-fma', 'sse41', 'fastmath', 'scalar', 'coresimd
 FLOAT_TYPES = {'Vec2': 'f32', 'Vec3': 'f32', 'Vec3A': 'f32', 'Vec4': 'f32', 'DVec2': 'f64', 'DVec3': 'f64', 'DVec4': 'f64'}
 
 
+def orthogonal_grid(lanes, atoms):
+    """decide 'non-zero and orthogonal for every non-zero input' for result lanes built from the input lanes by selection only.
+    -> True (decided, holds), a problem text (decided, fails), None (the lanes are not of that shape: not decided here)"""
+    ok_ops = {'ite', 'flt', 'fle', 'feq', 'fne', 'fabs', 'fneg', 'atom', 'c', 'and', 'or', 'not'}
+    seen = set()
+    st = list(lanes)
+    while st:
+        t = st.pop()
+        if t.id in seen:
+            continue
+        seen.add(t.id)
+        if t.op not in ok_ops:
+            return None
+        if t.op == 'atom' and t not in atoms:
+            return None
+        if t.op == 'c' and tm.f_of(t) != 0.0:
+            return None
+        st.extend(x for x in t.args if isinstance(x, tm.T))
+    import itertools
+    sz = _width_of(*lanes) if any(tm.is_const(x) for x in seen_terms(lanes)) else 4
+    n = len(atoms)
+    for vals in itertools.product(range(-3, 4), repeat=n):
+        if not any(vals):
+            continue
+        mp = {a: tm.fconst(float(v), sz) for a, v in zip(atoms, vals)}
+        out = [tm.subst(l, mp) for l in lanes]
+        if not all(tm.is_const(o) for o in out):
+            return None
+        ov = [tm.f_of(o) for o in out]
+        if not any(ov):
+            return 'returns the zero vector for the non-zero input %s' % (list(vals),)
+        if sum(x * y for x, y in zip(ov, vals)) != 0:
+            return 'the result %s is not orthogonal to the input %s' % (ov, list(vals))
+    return True
+
+
+def seen_terms(ts):
+    out, seen, st = [], set(), list(ts)
+    while st:
+        t = st.pop()
+        if t.id in seen:
+            continue
+        seen.add(t.id)
+        out.append(t)
+        st.extend(x for x in t.args if isinstance(x, tm.T))
+    return out
+
+
 def _width_of(*ts):
     """byte width of the float constants occurring in the terms (4 when none is found)"""
     seen = set()
@@ -982,6 +1030,23 @@ def run(ctx):
                         if bad or lanes is None:
                             bad = bad or 'no lanes'
                             break
+                    if not bad:
+                        # ... and affine in between: the real function is a + s (b - a)
+                        r = H.run(it['key'])
+                        if r.abort:
+                            bad = r.abort
+                        else:
+                            alg = nf.Algebra()
+                            S = Spec(alg)
+                            views = [ArgView(F, r, i, argtys[i]) for i in range(3)]
+                            lanes = value_lanes(F, r.ret, rty)
+                            a_ = [alg.nf(x) for x in views[0].lanes]
+                            b_ = [alg.nf(x) for x in views[1].lanes]
+                            s_ = alg.nf(views[2].lanes[0])
+                            for i, l in enumerate(lanes or []):
+                                if not S.eq(alg.nf(l), S.add(a_[i], S.mul(s_, S.sub(b_[i], a_[i])))):
+                                    bad = 'lerp lane %d is not self + s (rhs - self): not affine in s' % i
+                                    break
                     done('R-ENDPOINT', name, bad, it)
                 elif mname == 'move_towards':
                     r = H.run(it['key'])
@@ -1075,8 +1140,15 @@ def run(ctx):
                             for o in outs:
                                 if not S.eq(S.dot(a, [alg.nf(x) for x in o]), S.c(0)):
                                     bad = 'a branch of any_orthogonal_vector is not orthogonal to self'
-                            # and it is not the zero vector: on the branch chosen when |p| < |q| the squared length is q^2 plus squares
-                            if not bad and g and g[0].op == 'flt' and all(x.op == 'fabs' for x in g[0].args):
+                            # ... and never the zero vector for a non-zero self.  The result lanes are +-lanes of self or 0, selected by comparisons among
+                            # the lanes / their absolute values / 0, so the outcome depends only on the signs and on the ordering of the magnitudes:
+                            # the integer grid -3..3 realises every such pattern (three distinct magnitudes, ties and zeros included)
+                            grid_ok = None
+                            if not bad:
+                                grid_ok = orthogonal_grid(lanes, a_t)
+                                if isinstance(grid_ok, str):
+                                    bad = grid_ok
+                            if not bad and grid_ok is None and g and g[0].op == 'flt' and all(x.op == 'fabs' for x in g[0].args):
                                 big = {True: g[0].args[1].args[0], False: g[0].args[0].args[0]}
                                 for truth, o in ((True, g[1]), (False, g[2])):
                                     on = [alg.nf(x) for x in o]
